@@ -49,8 +49,48 @@ def _apply_rule(rule, text, log, part):
     return new, n
 
 
+def _replace_span_macros(text, log):
+    """R1: span *creation* is substituted, not dropped: `info_span!(..)` -> `Span::model_new()`."""
+    count = 0
+    while True:
+        m = rl.mask(text)
+        hit = re.search(r'(?<![\w:])(?:tracing::)?info_span!\s*\(', m)
+        if not hit:
+            break
+        cl = rl.match_bracket(m, hit.end() - 1)
+        text = text[:hit.start()] + 'Span::model_new()' + text[cl + 1:]
+        count += 1
+    if count:
+        log.append(dict(rule='R1:span-creation', part='body', count=count, matched=['info_span!(..)'], replaced_by='Span::model_new()',
+                        why='A-tracing: span is an opaque carrier; its field expressions are checked separately (R12)'))
+    return text
+
+
+def _expand_ready(text, log):
+    """R13: `ready!(E)` (futures::ready) written out as its definition, so that ghost arguments
+    inside E are seen by the Verus syntax macro."""
+    count = 0
+    pos = 0
+    while True:
+        m = rl.mask(text)
+        hit = re.compile(r'(?<![\w:!])ready!\(').search(m, pos)
+        if not hit:
+            break
+        cl = rl.match_bracket(m, hit.end() - 1)
+        inner = text[hit.end():cl]
+        new = '(match ' + inner + ' { Poll::Ready(ready__t) => ready__t, Poll::Pending => return Poll::Pending })'
+        text = text[:hit.start()] + new + text[cl + 1:]
+        pos = hit.start() + 7
+        count += 1
+    if count:
+        log.append(dict(rule='R13:ready-expansion', part='body', count=count, matched=['ready!(E)'],
+                        replaced_by='(match E { Poll::Ready(t) => t, Poll::Pending => return Poll::Pending })', why='definition of futures::ready!'))
+    return text
+
+
 def _drop_macro_calls(text, log):
     """R1: remove tracing macro invocations (statement or expression position)."""
+    text = _replace_span_macros(text, log)
     names = r'(?:tracing::)?(?:trace|debug|info|warn|error)!'
     count, samples = 0, []
     while True:
@@ -154,6 +194,8 @@ class Fn:
     lifts: List[Lift] = field(default_factory=list)
     hoist: List[Tuple[str, str]] = field(default_factory=list)   # R4: (kind, name) of items declared inside the body
     loops_optional: bool = False   # the invariants are used only if the body (still) has loops
+    hoist_contracts: Optional[dict] = None   # contracts for fns of hoisted impls: name -> 'ensures ...' text
+    inherited_ensures: str = ''   # ensures clauses inherited from the trait declaration (counted as obligations of this fn)
 
 
 @dataclass
@@ -161,6 +203,9 @@ class Impl:
     header: str                 # emitted header, e.g. 'impl<Res> InFlightRequests<Res>'
     parts: list = field(default_factory=list)
     fx_type: Optional[str] = None
+    qual: Optional[str] = None          # prefix for function names in reports, e.g. 'MaxRequests'
+    trait_impl: bool = False            # methods inherit `requires` from the trait declaration
+    canary_header: Optional[str] = None  # inherent impl block that receives the vacuity canaries
 
 
 @dataclass
@@ -453,6 +498,7 @@ def build_unit(unit: Unit, outdir, repo=None):
             counts[id(r)] = n
         for prim in unit.fx_fns + unit.fx_prims:
             body, _ = _add_call_arg(body, prim, 'Tracked(fx)', log, 'R6:fx-prim')
+        body = _expand_ready(body, log)
         return body, counts
 
     def reindent(t, delta):
@@ -487,8 +533,9 @@ def build_unit(unit: Unit, outdir, repo=None):
         nl = body.find('\n')
         return body[:nl + 1] + '        ' + pre.strip() + '\n' + body[nl + 1:]
 
-    def emit_fn(f: Fn, impl_header, fx_type=None):
+    def emit_fn(f: Fn, impl_header, fx_type=None, trait_impl=False, qual=None):
         fx_type = fx_type or unit.fx_type
+        qname = (qual + '::' if qual else '') + f.name
         text, masked = src(f.src)
         try:
             if f.impl:
@@ -508,9 +555,10 @@ def build_unit(unit: Unit, outdir, repo=None):
         if attrs_orig.strip():
             log.append(dict(rule='R0:attrs-docs', part='sig', count=1, matched=[' '.join(attrs_orig.split())[:200]], replaced_by='', why='doc comments and attributes are not copied'))
         # ---- R4 hoist items nested in the body
+        hoist_found = set()
         for kind, name in f.hoist:
             mb = rl.mask(body)
-            hm = list(re.finditer(r'(?m)^[ \t]*%s %s\b' % (kind, re.escape(name)), mb))
+            hm = list(re.finditer(r'(?m)^[ \t]*(?:#\[derive\([^)]*\)\]\n[ \t]*)?%s %s\b' % (kind, re.escape(name)), mb))
             if len(hm) != 1:
                 raise ExtractError('%s: nested %s %s matched %d times' % (f.name, kind, name, len(hm)))
             bo_ = rl.find_block_open(mb, hm[0].end())
@@ -518,8 +566,23 @@ def build_unit(unit: Unit, outdir, repo=None):
             item_text = body[hm[0].start():bc_ + 1]
             le_ = body.find('\n', bc_)
             body = body[:hm[0].start()] + body[le_ + 1:]
-            hoisted.append('\n'.join(l[4:] if l.startswith('    ') else l for l in reindent(item_text, 0).split('\n')).replace(kind + ' ' + name, 'pub ' + kind + ' ' + name, 1))
+            htext = '\n'.join(l[4:] if l.startswith('    ') else l for l in reindent(item_text, 0).split('\n'))
+            if kind != 'impl':
+                htext = htext.replace(kind + ' ' + name, 'pub ' + kind + ' ' + name, 1)
+            htext = _drop_macro_calls(htext, log)
+            for r in [x for x in unit.rules if x.where != 'sig'] + ([x for x in f.rules if x.where != 'sig'] if kind == 'impl' else []):
+                htext, _ = _apply_rule(r, htext, log, 'hoisted')
+            for hk, hv in (f.hoist_contracts or {}).items():
+                hm2 = re.search(r'(fn %s\([^)]*\)) -> (\w+) \{' % re.escape(hk), htext)
+                if not hm2:
+                    continue
+                hoist_found.add(hk)
+                htext = htext[:hm2.start()] + hm2.group(1) + ' -> (r: ' + hm2.group(2) + ')\n' + hv + '\n    {' + htext[hm2.end():]
+            hoisted.append(htext)
             log.append(dict(rule='R4:hoist', part='body', count=1, matched=[kind + ' ' + name], replaced_by='(moved to module level)', why='Verus does not support items declared inside a function body'))
+        for hk in (f.hoist_contracts or {}):
+            if hk not in hoist_found:
+                raise ExtractError('%s: hoisted fn %s not found' % (f.name, hk))
         # ---- R8 lambda lifting (before other rules, so both halves get the same treatment)
         lifted = []
         for lift in f.lifts:
@@ -573,18 +636,24 @@ def build_unit(unit: Unit, outdir, repo=None):
 
         attrs = f.attrs.strip()
         pre_attr = ('    ' + attrs + '\n' if attrs else '')
-        a, b = gen.add(pre_attr + render(head, ret, f.ret, where, f.requires, f.ensures, body))
-        entry = dict(name=f.name, emit_name=ename, impl=impl_header, src=f.src,
+        if trait_impl:
+            head = re.sub(r'^pub(?:\([a-z]+\))? ', '', head)
+        a, b = gen.add(pre_attr + render(head, ret, f.ret, where, '' if trait_impl else f.requires, f.ensures, body))
+        entry = dict(name=qname, emit_name=ename, impl=impl_header, src=f.src,
                      src_lines=[rl.line_of(text, loc['attr_start']), rl.line_of(text, loc['body_close'])],
                      sha256=_sha(orig), gen_lines=[a, b], tags=f.tags,
-                     ensures_tags=_clauses(f.ensures), requires_tags=_clauses(f.requires),
+                     ensures_tags=_clauses(f.ensures) + _clauses(f.inherited_ensures), requires_tags=_clauses(f.requires),
                      invariant_tags=[t for inv in f.loops if inv for t in _clauses(inv)],
                      hint_asserts=sum(h[1].count('assert') for h in f.hints),
                      rule_applications=log, canary_lines=None)
         if f.canary:
             chead = re.sub(r'\bfn %s\b' % re.escape(ename), 'fn ' + ename + '__canary', head, count=1)
-            ca, cb = gen.add(pre_attr + render(chead, ret, f.ret, where, f.requires, 'false, // @canary\n', body))
-            entry['canary_lines'] = [ca, cb]
+            ctext = pre_attr + render(chead, ret, f.ret, where, f.requires, 'false, // @canary\n', body)
+            if trait_impl:
+                deferred_canaries.append((entry, ctext))
+            else:
+                ca, cb = gen.add(ctext)
+                entry['canary_lines'] = [ca, cb]
         fn_table.append(entry)
         prov['items'].append(dict(kind='fn', **{k: entry[k] for k in ('name', 'impl', 'src', 'src_lines', 'sha256', 'gen_lines', 'rule_applications')}))
         for lift, cbody in lifted2:
@@ -592,7 +661,7 @@ def build_unit(unit: Unit, outdir, repo=None):
                                         (', Tracked(fx): Tracked<&mut %s>' % fx_type) if lift.fx else '')
             cbody = add_pre(cbody, lift.pre)
             la, lb = gen.add(render(lhead, lift.ret, lift.ret_name, '', lift.requires, lift.ensures, cbody))
-            lentry = dict(name=f.name + '{closure:' + lift.name + '}', emit_name=lift.name, impl=impl_header, src=f.src,
+            lentry = dict(name=qname + '{closure:' + lift.name + '}', emit_name=lift.name, impl=impl_header, src=f.src,
                           src_lines=entry['src_lines'], sha256=entry['sha256'], gen_lines=[la, lb], tags=lift.tags,
                           ensures_tags=_clauses(lift.ensures), requires_tags=_clauses(lift.requires), invariant_tags=[],
                           hint_asserts=0, rule_applications=[], canary_lines=None)
@@ -602,19 +671,27 @@ def build_unit(unit: Unit, outdir, repo=None):
             fn_table.append(lentry)
 
     hoisted = []
+    deferred_canaries = []
 
-    def emit_parts(parts, impl_header=None, fx_type=None):
+    def emit_parts(parts, impl_header=None, fx_type=None, trait_impl=False, qual=None):
         for p in parts:
             if isinstance(p, Raw):
                 gen.add(p.text)
             elif isinstance(p, TypeItem):
                 emit_type(p)
             elif isinstance(p, Fn):
-                emit_fn(p, impl_header, fx_type)
+                emit_fn(p, impl_header, fx_type, trait_impl, qual)
             elif isinstance(p, Impl):
                 gen.add(p.header + ' {')
-                emit_parts(p.parts, p.header, p.fx_type)
+                emit_parts(p.parts, p.header, p.fx_type, p.trait_impl, p.qual)
                 gen.add('}')
+                if deferred_canaries:
+                    gen.add((p.canary_header or p.header) + ' {')
+                    while deferred_canaries:
+                        centry, ctext = deferred_canaries.pop(0)
+                        ca, cb = gen.add(ctext)
+                        centry['canary_lines'] = [ca, cb]
+                    gen.add('}')
                 while hoisted:
                     gen.add(hoisted.pop(0))
             else:
